@@ -355,7 +355,7 @@ for _k, _n in {
     'ndarray::SliceInfo::new_unchecked': 'sliceinfo',
     'ndarray_stats::QuantileExt::max': 'max_all', 'ndarray_stats::QuantileExt::max_skipnan': 'max_skipnan',
     'ndarray_stats::QuantileExt::min': 'min_all',
-    'core::slice::repeat': 'slice_repeat', 'std::vec::from_elem': 'repeat',
+    'std::vec::from_elem': 'repeat',
 }.items():
     reg('SHAPE', _k)(_func(_n))
 
@@ -1056,3 +1056,20 @@ def h_mem_swap(vf, node, fn, args):
         vf.write(b.place, va)
         return T.UNIT
     return vf.default_call('std::mem::swap', args, node, fn)
+
+
+@reg('SHAPE', 'core::slice::repeat', 'std::slice::repeat')
+def h_slice_repeat(vf, node, fn, args):
+    """[x].repeat(k): k copies of x (a one-element slice repeated); other lengths stay symbolic"""
+    base = tt(vf, vf.deref(args[0]))
+    k = tt(vf, args[1])
+    if T.is_app(base, 'array') and len(base[2]) == 1:
+        x = base[2][0]
+        return Seq(k, lambda i: x, 'repeat', src=None)
+    return T.app('slice_repeat', base, k)
+
+
+@reg('ITER', 'std::iter::repeat', 'core::iter::repeat')
+def h_iter_repeat(vf, node, fn, args):
+    x = tt(vf, vf.deref(args[0]))
+    return Seq(T.sym('inf'), lambda i: x, 'repeat', src=None)
